@@ -371,6 +371,7 @@ impl Profile
                     p.w_key = [6, 4, 5, 2, 3, 4, 2, 2, 4, 2, 12];
                     p.w_fresh_api = [2, 2, 6, 3];
                     p.hot_entities = 3;
+                    p.w_script[OPK_AUTODESPAWN] = 5; p.w_top[OPK_AUTODESPAWN] = 3;
                 }
                 if prop == "C03" { p.w_script[OPK_REMOVE] = 6; p.w_script[OPK_DESPAWN_ENT] = 4; p.w_key = [6, 6, 6, 4, 5, 7, 3, 5, 5, 3, 5]; }
             }
@@ -596,7 +597,7 @@ impl<'a, 'p> Dec<'a, 'p>
             }
             OPK_REVOKE => Op::Revoke(self.below(6) as u8),
             OPK_AUTODESPAWN => Op::AutoDespawn(self.entity()),
-            OPK_RUNMANY => { let s = self.sysref(own); Op::RunMany(s, self.below(3) as u8) }
+            OPK_RUNMANY => { let s = self.sysref(own); Op::RunMany(s, self.below(4) as u8) }
             OPK_SYSEV_ENT => { let e = self.entity(); Op::SysEventToEntity(e, self.evty()) }
             _ => Op::Probe(self.chance(80)),
         }
